@@ -273,7 +273,9 @@ class Composition(Loggable):
                 joined = " >> ".join(
                     [
                         f"({'*' if delayed else ''}{t or '-'}) {c.name}"
-                        for c, (t, delayed) in reversed(chain.items())
+                        for c, (t, delayed) in (
+                            (c, v or (None, False)) for c, v in reversed(chain.items())
+                        )
                     ]
                 )
                 raise FinamCircularCouplingError(
